@@ -427,11 +427,20 @@ class Prop:
             os.mkdir(root)
             build_dir(root, desc["tree"])
             seen = observed_order(root, desc["tree"])
+            arg = root
+            cwd = os.getcwd()
             try:
-                tree = load_tree_from_fs(root if how != "pathobj" else Path(root), sort=sort)
+                if how == "pathobj":
+                    arg = Path(root)
+                elif how == "relative":          # a relative path with a trailing slash
+                    os.chdir(base)
+                    arg = "root/"
+                tree = load_tree_from_fs(arg, sort=sort)
             except Exception as e:  # noqa: BLE001  -- the scan of a readable directory must not raise
                 tree = None
                 load_err = f"{type(e).__name__}: {e}"
+            finally:
+                os.chdir(cwd)
             if observed_order(root, desc["tree"]) != seen:
                 raise RuntimeError("environment: listing order changed during the scan")
             if tree is None:
@@ -480,12 +489,12 @@ class Prop:
             obs = [o_tree, o_nodes, o_back]
             fail = self.oracle_load(desc, root, tree, tree2, meta, err, sort)
             nm = str(tree.name)
-            if not fail and nm != str(Path(root)):
+            if not fail and nm != str(Path(arg)):
                 fail = f"tree-name: {nm!r} is not the scanned path"
         finally:
             shutil.rmtree(base, ignore_errors=True)
         model_listing = desc["tree"] if sort else seen
-        coq = f"(CLoad {H.coq_bool(sort)} {coq_root(root)} {H.coq_list(coq_fsn(e) for e in model_listing)})"
+        coq = f"(CLoad {H.coq_bool(sort)} {coq_root(arg)} {H.coq_list(coq_fsn(e) for e in model_listing)})"
         fsz = [len(f) for f in folders(desc["tree"])]
         mixed = any(len({e[0] for e in f if e[0] != "o"}) == 2 for f in folders(desc["tree"]))
         return Case(desc=desc, coq_input=coq, impl_obs=obs, oracle_fail=fail,
@@ -664,7 +673,7 @@ def _leaves(shape):
             yield t
 
 
-HOWS = ["path", "path", "pathobj", "explicit", "stream", "zip"]
+HOWS = ["path", "path", "pathobj", "relative", "explicit", "stream", "zip"]
 
 CORPUS = [
     # the names of the task statement: upper/lower case, '_', umlaut, "10" vs "9", files and folders mixed
